@@ -78,7 +78,8 @@ def htlcRaw (polOk : Nat → Bool → Nat → Bool) (htlcKey : Key) (s : Setup) 
           if rs ≠ orig then .error .mismatch                 -- `return Err(policy_error("policy-htlc-other", …))`: not filterable
           else if !polOk rate offered cltv then .error .policy
           else .ok (cr.sign htlcKey rs)                      -- signs the recomposed sighash
-    | _, _ => .error .panic                                  -- `tx.input[0]` / `tx.output[0]`
+    | [], _ => .error .policy                                -- `p2wsh_signature_hash(0, …)` of the supplied tx fails first: "could not compute sighash"
+    | _ :: _, [] => .error .panic                            -- `tx.output[0]`
 
 /-- what `EnforcementState` records about the counterparty commitments signed last (ids of per-commitment points) -/
 structure CpPoints where
